@@ -180,8 +180,10 @@ def adapt_circuit(circuit: Union[CircuitTemplate, str], params: dict, param_map:
             else:
                 for source, target, idx in edges:
                     for var in param_map[key]['vars']:
+                        # update the addressed edge directly (`update_var` addresses the first edge between two
+                        # variables only; `circuit` is a copy already)
                         edge = circuit.get_edge(source=source, target=target, idx=idx)
-                        edge_updates.append((edge[0], edge[1], {var: val}))
+                        edge[3].update({var: val})
 
     return circuit.update_var(node_vars=node_updates, edge_vars=edge_updates)
 
